@@ -561,6 +561,16 @@ func (e *specEnv) call(x *SExpr) SVal {
 		hd := e.r.heapGet(e.state(), dom)
 		return SVal{Term: fmt.Sprintf("(select (select %s %s) %s)", hd, m.Term, k.Term), Sort: "Bool"}
 	}
+	// type conversion T(x): same term, Go type T (named types over the same SMT sort)
+	if len(x.Args) == 1 {
+		if t := e.resolveType(name); t != nil {
+			a := arg(0)
+			if e.r.eng.Sorts.SortOf(t) == a.Sort {
+				return SVal{Term: a.Term, Sort: a.Sort, Type: t}
+			}
+			e.fail("conversion %s(...) between different sorts", name)
+		}
+	}
 	// prelude function
 	if d, ok := e.r.eng.Prelude.Defs[name]; ok {
 		if len(d.ArgSorts) != len(x.Args) {
